@@ -72,11 +72,11 @@ Definition lossless_opts (o : eopts) : Prop :=
 
 Definition anim_lossless_roundtrip_statement (fx : fixes) : Prop :=
   forall (rt_ll rt_ly : img -> img) (W H : Z) (opts : eopts) (frames : list (img * Z))
-         (oracle : nat -> orc) (simple : bool) (st0 : est) (out : output),
+         (oracle : nat -> orc) (has_meta simple : bool) (st0 : est) (out : output),
     codec_lossless rt_ll ->
     wf_canvas_dims W H -> lossless_opts opts -> frames <> [] -> Forall wf_input frames ->
     new_encoder W H opts = Some st0 ->
-    close simple (run_frames fx oracle st0 frames) = Some out ->
+    close has_meta simple (run_frames fx oracle st0 frames) = Some out ->
     same_show W H (eo_loop opts) out (playback rt_ll rt_ly fx out) (inputs_of W H frames).
 
 (* ------------------------------------------------------------------ *)
@@ -93,9 +93,9 @@ Definition alpha_opts (o : eopts) : Prop :=
    same display times (the C08 relation on the alpha channel). *)
 Definition anim_alpha_preserved_statement (fx : fixes) : Prop :=
   forall (rt_ll rt_ly : img -> img) (W H : Z) (opts : eopts) (frames : list (img * Z))
-         (oracle : nat -> orc) (simple : bool) (st0 : est) (out : output),
+         (oracle : nat -> orc) (has_meta simple : bool) (st0 : est) (out : output),
     codec_lossless rt_ll -> codec_alpha_exact rt_ly ->
     wf_canvas_dims W H -> alpha_opts opts -> frames <> [] -> Forall wf_input frames ->
     new_encoder W H opts = Some st0 ->
-    close simple (run_frames fx oracle st0 frames) = Some out ->
+    close has_meta simple (run_frames fx oracle st0 frames) = Some out ->
     same_show_by alpha_only W H (eo_loop opts) out (playback rt_ll rt_ly fx out) (inputs_of W H frames).
